@@ -319,10 +319,13 @@ class Contract:
         node = _parse(text)
         env = self._env(interp, bound, extra)
         interp.spec += 1
+        old = V.SAFETY[0]
+        V.SAFETY[0] = False
         try:
             return interp.eval(node, env)
         finally:
             interp.spec -= 1
+            V.SAFETY[0] = old
 
     # modular use -----------------------------------------------------------
     def apply_at_call(self, interp, f, bound):
